@@ -17,6 +17,9 @@ LAYOUT2 = ['hs0', 'hsp', 'bp', 'ep', 'a', 'sp', 'nl', 'tab', 'cm', 'lb', 'ix', '
 LINES = ['L_a', 'L_ia', 'L_iia', 'L_lb', 'L_ilb', 'L_tlb', 'L_uk', 'L_e', 'L_sp', 'L_cm', 'L_icm', 'L_alb', 'L_lba', 'L_par', 'L_skp', 'L_ob', 'L_cb', 'b']
 LINES10 = ['L_a', 'L_iia', 'L_lb', 'L_ilb', 'L_uk', 'L_e', 'L_sp', 'L_cm', 'L_alb', 'b']
 VERBL = ['L_a', 'L_iia', 'L_lb', 'L_ilb', 'L_vrb', 'vrb', 'vrb2', 'b', 'sp', 'L_cm', 'L_ob', 'L_cb', 'add', 'cb', 'fn']
+# the end of a macro argument: what stands there must not act on the text behind the argument
+ARGEND = ['a', 'sp', 'nl', 'uk', 'lb', 'tc', 'add', 'flD', 'cb', 'L_cb', 'fn']
+ARGEND7 = ['a', 'nl', 'sp', 'flD', 'tc', 'cb', 'uk']
 M1 = ['a', 'sp', 'dB', 'uB', 'uBt', 'cb', 'rB']
 M2 = ['a', 'dC', 'uC', 'uCo', 'ocb', 'cb']
 M3 = ['a', 'b', 'dD', 'uD', 'dE', 'uE', 'dG', 'uG', 'dB', 'cb', 'uB']
@@ -28,18 +31,18 @@ CITEO = ['a', 'sp', 'cto', 'ctc', 'ob', 'cb', 'rbk', 'b']
 INL1 = ['a', 'sp', 'mo', 'mc', 'my', 'mpl', 'mdt', 'msp', 'mfr']
 INL2 = ['a', 'mo', 'mc', 'mo2', 'mc2', 'my', 'mw', 'meq', 'mal', 'msb', 'mti', 'mcm', 'mob', 'mcb', 'fn', 'cb', 'add', 'it', 'bi', 'ei', 'sec']
 INL3 = ['mo', 'mc', 'my', 'mdt', 'a', 'fn', 'cb']
-INLALL = sorted(set(INL1 + INL2 + ['nl', 'lb', 'uk', '.']))
+INLALL = sorted(set(INL1 + INL2 + ['nl', 'lb', 'uk', '.', 'vbd', 'vbb']))
 DSP1 = ['ba', 'ea', 'my', 'mdt', 'meq', 'mam', 'mnl']
 DSP2 = ['ba', 'ea', 'my', 'mdt', 'mcm', 'meq', 'mpl', 'mtx', 'msp', 'mlb', 'mam', 'mnl']
 DSP3 = ['a', 'ba', 'ea', 'bq', 'eq', 'bd', 'ed', 'bdd', 'edd', 'my', 'mw', 'mdt', 'meq', 'mtx', 'mnn', 'mlb', 'mfr', 'mal', 'msb', 'mti', 'mob', 'mcb', 'mam', 'mnl']
 DSPALL = sorted(set(DSP3 + DSP2 + ['sp', 'nl', 'mo', 'mc']))
-FAULTS = ['Fim', 'FimE', 'Fdm', 'FdmE', 'FeqE', 'FargE', 'FoptE', 'FvbE', 'FveE', 'Fsk', 'Facc', 'Flt']
-FLT2 = ['ltE', 'ltD', 'uA', 'a', 'b', 'sp', 'nl', 'cm', 'lb', 'uk', 'ob', 'cb', 'fn', 'sec', 'im', 'add', 'it', 'bi', 'ei', 'vb', 'tie', 'skb', 'ske', 'q', 'mo', 'mc', 'my', 'bd', 'ed'] + FAULTS
+FAULTS = ['Fim', 'FimE', 'Fdm', 'FdmE', 'FeqE', 'FargE', 'FoptE', 'FvbE', 'FveE', 'Fsk', 'Facc', 'FaccD', 'FaccI', 'Flt']
+FLT2 = ['ltE', 'ltD', 'uA', 'a', 'b', 'sp', 'nl', 'cm', 'lb', 'uk', 'ob', 'cb', 'fn', 'sec', 'im', 'add', 'it', 'bi', 'ei', 'vb', 'vbd', 'vbb', 'tie', 'skb', 'ske', 'q', 'mo', 'mc', 'my', 'bd', 'ed'] + FAULTS
 EXTR = ['alt', 'acb', 'a', 'b', 'sp', 'nl', 'fn', 'xo', 'cap', 'cb', 'uk', 'ob', 'sec', 'add', 'tc', 'cmf', 'cm', 'skb', 'ske', 'q', 'fnq', 'bl', 'el', 'im', 'ref', 'lb', 'par', 'bi', 'ei', 'it']
 UNKN = ['ntm', 'bth', 'eth', 'hsu', 'phu', 'a', 'sp', 'uk', 'uk2', 'bu', 'eu', 'xo', 'cb', 'ob', 'fn', 'sec', 'add', 'tc', 'cmu', 'skb', 'ske', 'q', 'mo', 'mc', 'mal', 'my', 'bd', 'ed', 'dA', 'uA', 'dB', 'uB', 'uC', 'dC', 'lb', 'it', 'bi', 'ei', 'vb']
-COPY = ['acc', 'tbs', 'itl', 'ilc', 'bi', 'ei', 'a', 'b', '.', 'sp', 'nl', 'cm', 'ob', 'cb', 'uk', 'add', 'fbx', 'tc', 'fn', 'cap', 'vb', 'tie', 'nd', 'md', 'lq', 'rq',
+COPY = ['acc', 'tbs', 'itl', 'ilc', 'bi', 'ei', 'a', 'b', '.', 'sp', 'nl', 'cm', 'ob', 'cb', 'uk', 'add', 'fbx', 'tc', 'fn', 'cap', 'vb', 'vbd', 'vbb', 'tie', 'nd', 'md', 'lq', 'rq',
         'thin', 'pct', 'amp', 'dol', 'hsh', 'usc', 'lbr', 'rbr', 'lb', 'sec', 'im']
-PROSE = ['fct', 'ntm', 'bth', 'eth', 'itl', 'ilc', 'bp', 'ep', 'bt', 'et', 'tamp', 'tbsl', 'capo', 'seco', 'hsu', 'phu', 'alt', 'acb', 'ltD', 'uA', 'up', 'cto', 'ctc', 'a', 'b', '!', 'sp', 'nl', 'cm', 'uk', 'uk2', 'ob', 'cb', 'add', 'tc', 'fn', 'cap', 'sec', 'sub', 'bi', 'ei', 'be', 'ee', 'it',
+PROSE = ['vbd', 'vbb', 'fct', 'ntm', 'bth', 'eth', 'itl', 'ilc', 'bp', 'ep', 'bt', 'et', 'tamp', 'tbsl', 'capo', 'seco', 'hsu', 'phu', 'alt', 'acb', 'ltD', 'uA', 'up', 'cto', 'ctc', 'a', 'b', '!', 'sp', 'nl', 'cm', 'uk', 'uk2', 'ob', 'cb', 'add', 'tc', 'fn', 'cap', 'sec', 'sub', 'bi', 'ei', 'be', 'ee', 'it',
          'bu', 'eu', 'skb', 'ske', 'q', 'fnq', 'skp', 'bl', 'el', 'lb', 'ix', 'cite', 'ref', 'im', 'imp', 'par', 'bm', 'em']
 GENER = ['fct', 'ntm', 'bth', 'eth', 'itl', 'ilc', 'bp', 'ep', 'tamp', 'bt', 'et', 'hsp', 'phn', 'tbs', 'dB', 'dC', 'uB', 'uBt', 'uC', 'a', '.', 'sp', 'nl', 'ref', 'cite', 'im', 'imp', 'it', 'bi', 'ei', 'be', 'ee', 'sec', 'sub', 'fn', 'cap', 'cb', 'par', 'bm', 'em', 'lb', 'uk']
 
@@ -74,7 +77,7 @@ CONFIG = {
                 thorough=[(DSP1, 8, 1), (DSP2, 6, 1), (DSP3, 5, 1)],
                 sim=(DSPALL, 300, 3000), variants=[{}, {'lang': 'de'}, {'lang': 'ru', 'seqs': True}, {'seqs': True}]),
     'C08': dict(key='c08', focus=set(FAULTS),
-                quick=[(['a', 'sp', 'nl', 'lb'] + FAULTS, 4, 1), (['a', 'nl', 'ltE', 'ltD'] + FAULTS, 3, 1), (FLT2, 3, 2), (['a', 'nl'] + FAULTS, 5, 1)],
+                quick=[(['a', 'sp', 'nl', 'lb'] + FAULTS, 4, 1), (['a', 'nl', 'ltE', 'ltD'] + FAULTS, 3, 1), (FLT2, 3, 2), (['a', 'nl'] + FAULTS, 5, 1), (['a', 'sp', 'vbd', 'vbb', 'im', 'ob', 'cb', 'bi', 'ei', 'it'], 4, 2)],
                 thorough=[(['a', 'sp', 'nl', 'lb'] + FAULTS, 5, 1), (FLT2, 4, 2), (['a', 'nl'] + FAULTS, 7, 1)],
                 sim=(FLT2, 300, 3000), variants=[{}, {'seqs': True}, {'lang': 'ru'}]),
     'C18': dict(key='c18', focus={'fn', 'xo', 'cap', 'cmf', 'fnq'},
@@ -86,11 +89,11 @@ CONFIG = {
                 thorough=[(UNKN, 4, 3), (['a', 'uk', 'uk2', 'bu', 'eu', 'fn', 'cb', 'mo', 'mal', 'my', 'mc', 'cmu', 'skb', 'ske', 'uB', 'dB'], 6, 2)],
                 sim=(UNKN, 300, 3000), variants=[{'unkn': True}, {'unkn': True, 'pack': '*'}, {'unkn': True, 'repl': ['foo & zzz', 'unk & a b', 'bar mb & x']}]),
     'C05': dict(key='c05', focus={'sp', 'nl', 'cm', 'tab', 'par', 'bm', 'bl', 'skb', 'lb', 'uk'},
-                quick=[(LAYOUT, 5, 1), (LAYOUT2, 3, 2), (['a', 'sp', 'nl', 'cm', 'lb', 'uk', 'ob', 'cb', 'skp', 'par', 'tab'], 4, 2), (LINES10, 4, 1), (LINES, 3, 2)],
-                thorough=[(LAYOUT, 6, 1), (LAYOUT2, 4, 2), (['a', 'sp', 'nl', 'cm', 'lb', 'uk', 'ob', 'cb', 'skp', 'par', 'tab'], 5, 2), (LINES10, 5, 1), (LINES, 4, 2)],
-                sim=(LAYOUT2, 300, 3000)),
+                quick=[(LAYOUT, 5, 1), (LAYOUT2, 3, 2), (['a', 'sp', 'nl', 'cm', 'lb', 'uk', 'ob', 'cb', 'skp', 'par', 'tab'], 4, 2), (LINES10, 4, 1), (LINES, 3, 2), (ARGEND, 4, 2), (ARGEND7, 6, 2)],
+                thorough=[(LAYOUT, 6, 1), (LAYOUT2, 4, 2), (['a', 'sp', 'nl', 'cm', 'lb', 'uk', 'ob', 'cb', 'skp', 'par', 'tab'], 5, 2), (LINES10, 5, 1), (LINES, 4, 2), (ARGEND, 5, 2), (ARGEND7, 7, 2)],
+                sim=(LAYOUT2 + ['tc', 'add', 'flD'], 300, 3000)),
 }
-OPTS = {'pack': 'xcolor,listings,amsmath,glossaries,amsthm,biblatex'}
+OPTS = {'pack': 'xcolor,listings,amsmath,glossaries,amsthm,biblatex,babel'}
 
 
 def project(rec):
@@ -145,6 +148,7 @@ def generate(c, confs, sim, tier):
 def make_files():
     os.makedirs('/tmp/yvfiles', exist_ok=True)
     for name, content in (('e.tex', ''), ('d.tex', '\\newcommand{\\ma}{mn}'),
+                          ('f.tex', 'text in the file\n\\footnote{a long footnote in the included file, longer than most documents of the generator}\n'),
                           ('g.glsdefs', '\\gls@defglossaryentry{ab}{name={ab},text={abt},plural={abts},description={d}}\n')):
         p = os.path.join('/tmp/yvfiles', name)
         if not os.path.exists(p) or open(p).read() != content:
